@@ -31,7 +31,7 @@ ASSUMPTIONS = [
     "isLeapYear depends on its argument only through residues modulo divisors of 400 (checked)",
     "C03.Y covers the sampled years only (bounded); inside a month both conversions are affine in the fields",
 ]
-TECHNIQUE = "abstract interpretation of the conversions at month boundaries against the Gregorian day count (F2/F3), AST path enumeration with exact polynomial normal forms (F2/F6), finite case domains (F4), table agreement (F5)"
+TECHNIQUE = "abstract interpretation of toAbsTime / readUnixTime at the month boundaries of the sampled years against the Gregorian day count, of isLeapYear on every year 1583..3000, of the comparison operators on all field-wise orderings and of addSec/Min/Hour/Day on carry cases (bounded case domains, checker's AST interpreter); month table (F5); advisory symbolic loop rules (F2/F6)"
 
 
 def _class_const(ctx, name):
